@@ -16,6 +16,8 @@ pub struct FnSpec {
     pub before_call: Vec<(String, String)>,
     pub after_call: Vec<(String, String)>,
     pub after_let: Vec<(String, String)>,
+    pub before_if: Vec<(String, String)>,
+    pub then_start: Vec<(String, String)>,
     pub ret_hint: String,
     pub loops: BTreeMap<usize, String>,
     pub loops_cond: BTreeMap<usize, String>,
@@ -137,6 +139,8 @@ pub fn parse_unit(text: &str) -> Unit {
             s if s.starts_with("before-call ") => spec.before_call.last_mut().unwrap().1.push_str(&l),
             s if s.starts_with("after-call ") => spec.after_call.last_mut().unwrap().1.push_str(&l),
             s if s.starts_with("after-let ") => spec.after_let.last_mut().unwrap().1.push_str(&l),
+            s if s.starts_with("before-if ") => spec.before_if.last_mut().unwrap().1.push_str(&l),
+            s if s.starts_with("then-start ") => spec.then_start.last_mut().unwrap().1.push_str(&l),
             s if s.starts_with("loop-start ") => { let n: usize = s[11..].trim().parse().unwrap(); spec.loop_start.entry(n).or_default().push_str(&l) }
             s if s.starts_with("loop-end ") => { let n: usize = s[9..].trim().parse().unwrap(); spec.loop_end.entry(n).or_default().push_str(&l) }
             s if s.starts_with("loop ") => { let n: usize = s[5..].trim().split_whitespace().next().unwrap().parse().unwrap(); spec.loops.entry(n).or_default().push_str(&l) }
@@ -202,6 +206,8 @@ pub fn parse_unit(text: &str) -> Unit {
             "end" => { cur_fn = None; section = None; }
             "before-call" => { u.fns.get_mut(cur_fn.as_ref().unwrap()).unwrap().before_call.push((norm(rest), String::new())); section = Some(line.to_string()); }
             "after-call" => { u.fns.get_mut(cur_fn.as_ref().unwrap()).unwrap().after_call.push((norm(rest), String::new())); section = Some(line.to_string()); }
+            "before-if" => { u.fns.get_mut(cur_fn.as_ref().unwrap()).unwrap().before_if.push((norm(rest), String::new())); section = Some(line.to_string()); }
+            "then-start" => { u.fns.get_mut(cur_fn.as_ref().unwrap()).unwrap().then_start.push((norm(rest), String::new())); section = Some(line.to_string()); }
             "after-let" => { u.fns.get_mut(cur_fn.as_ref().unwrap()).unwrap().after_let.push((norm(rest), String::new())); section = Some(line.to_string()); }
             "outline-expr" => { let (a, b) = rest.split_once("=>").expect("outline-expr A => B"); u.fns.get_mut(cur_fn.as_ref().unwrap()).unwrap().outline_exprs.push((norm(a), b.trim().to_string())); }
             "dead-branch" => { let (f, c) = rest.trim().split_once(' ').unwrap(); u.fns.get_mut(cur_fn.as_ref().unwrap()).unwrap().dead_conds.push((f.to_string(), norm(c))); }
